@@ -28,6 +28,7 @@ type Case struct {
 	Data          []byte `json:"data"`
 	FaultAt       int64  `json:"fault_at"` // -1: none
 	FaultWithData bool   `json:"fault_with_data"`
+	FaultErr      string `json:"fault_err,omitempty"` // which error value the source fails with (src.FaultErrs)
 	Sizes         []int  `json:"sizes"`
 	DataWithEOF   bool   `json:"data_with_eof"`
 	Drain         []int  `json:"drain"`
@@ -63,7 +64,7 @@ func drain(r io.Reader, sizes []int, limit int) (out []byte, err error, stalled 
 		n, e := r.Read(buf[:k])
 		out = append(out, buf[:n]...)
 		if e != nil {
-			if e == io.EOF {
+			if e == io.EOF { // identity, not errors.Is: an error that merely wraps io.EOF is an error
 				return out, nil, false
 			}
 			return out, e, false
@@ -85,7 +86,7 @@ func drain(r io.Reader, sizes []int, limit int) (out []byte, err error, stalled 
 // check returns kind/what and whether the case is non-trivial (fault before Load returned, or
 // a short-reading source, or truncation strictly inside a structure - the caller knows the latter).
 func check(c Case) (kind, what string, nt bool) {
-	s := &src.Source{Data: c.Data, FaultAt: c.FaultAt, FaultWithData: c.FaultWithData, Sizes: c.Sizes, DataWithEOF: c.DataWithEOF}
+	s := &src.Source{Data: c.Data, FaultAt: c.FaultAt, FaultWithData: c.FaultWithData, FaultErr: c.FaultErr, Sizes: c.Sizes, DataWithEOF: c.DataWithEOF}
 	var o ld.Outcome
 	if c.Std > 0 {
 		r, remaining, cleanup := stdSource(c.StdKind, c.Std-1, c.Data)
@@ -125,8 +126,8 @@ func check(c Case) (kind, what string, nt bool) {
 		return k + "bytes", fmt.Sprintf("stream yields %d bytes, source delivered %d (first difference at %d); loader had pulled %d bytes, fault at %d, load err=%q (%s)", len(got), len(want), firstDiff(got, want), pulled, c.FaultAt, o.Err, c.Seed), nt
 	}
 	if fault {
-		if derr == nil || !errors.Is(derr, src.ErrInjected) {
-			return k + "error-lost", fmt.Sprintf("source failed at byte %d with an I/O error but the stream ended with %v after %d bytes (loader had pulled %d; %s)", c.FaultAt, derr, len(got), pulled, c.Seed), nt
+		if derr == nil || derr != s.Err() && !errors.Is(derr, s.Err()) {
+			return k + "error-lost", fmt.Sprintf("source failed at byte %d with the I/O error %q but the stream ended with %v after %d bytes (loader had pulled %d; %s)", c.FaultAt, s.Err(), derr, len(got), pulled, c.Seed), nt
 		}
 	} else if derr != nil {
 		return k + "spurious-error", fmt.Sprintf("stream ended with %v although the source ended cleanly (%s)", derr, c.Seed), nt
@@ -289,7 +290,7 @@ func TestC07(t *testing.T) {
 						run(Case{Seed: in.name, Data: in.data[:p], FaultAt: -1, Sizes: sc, DataWithEOF: h%3 == 0, Drain: dr, Loader: loader}, in.in[p])
 						// sticky fault at p
 						if p <= len(in.data) {
-							run(Case{Seed: in.name, Data: in.data, FaultAt: int64(p), FaultWithData: h%2 == 0, Sizes: sc, Drain: dr, Loader: loader}, false)
+							run(Case{Seed: in.name, Data: in.data, FaultAt: int64(p), FaultWithData: h%2 == 0, FaultErr: src.FaultErrNames[int(h/5)%len(src.FaultErrNames)], Sizes: sc, Drain: dr, Loader: loader}, false)
 							if ev.Thorough() {
 								run(Case{Seed: in.name, Data: in.data, FaultAt: int64(p), FaultWithData: h%2 != 0, Sizes: sc, Drain: dr, Loader: loader}, false)
 							}
@@ -372,6 +373,7 @@ func TestC07(t *testing.T) {
 		case 1:
 			c.FaultAt = int64(rapid.IntRange(0, len(f.Data)).Draw(rt, "faultat"))
 			c.FaultWithData = rapid.Bool().Draw(rt, "withdata")
+			c.FaultErr = rapid.SampledFrom(src.FaultErrNames).Draw(rt, "faulterr")
 		}
 		if rapid.Bool().Draw(rt, "short") {
 			c.Sizes = rapid.SliceOfN(rapid.IntRange(1, 5000), 1, 6).Draw(rt, "sizes")
